@@ -310,26 +310,19 @@ Definition dec_fuel : nat := N.to_nat dec_limit.
 Definition int_ok (z : Z) : bool := ((-9223372036854775808 <=? z) && (z <? 18446744073709551616))%Z.
 Definition len_ok {A} (l : list A) : bool := len l <? 4294967296.
 
-(* what packb can serialise at all: 64-bit integers, text without lone surrogates *)
-Fixpoint encodable (v : mval) : bool :=
+(* what packb can serialise: 64-bit integers, 64-bit float patterns, text and keys that are well-formed UTF-8
+   (a Python str with a lone surrogate is refused); every length below 2^32 (longer objects cannot be built here) *)
+Fixpoint wfb (v : mval) : bool :=
   match v with
   | MInt z => int_ok z
-  | MStr s => utf8_valid s
-  | MArr l => forallb encodable l
-  | MMap kvs => forallb (fun kv => utf8_valid (fst kv) && encodable (snd kv)) kvs
-  | _ => true
-  end.
-
-Fixpoint lens_ok (v : mval) : bool :=
-  match v with
-  | MStr s => len_ok s
+  | MFloat b => b <? 18446744073709551616
+  | MStr s => utf8_valid s && len_ok s
   | MBin s => len_ok s
-  | MArr l => len_ok l && forallb lens_ok l
-  | MMap kvs => len_ok kvs && forallb (fun kv => len_ok (fst kv) && lens_ok (snd kv)) kvs
+  | MArr l => len_ok l && forallb wfb l
+  | MMap kvs => len_ok kvs && forallb (fun kv => utf8_valid (fst kv) && len_ok (fst kv) && wfb (snd kv)) kvs
   | _ => true
   end.
 
-Definition wfb (v : mval) : bool := encodable v && lens_ok v.
 Definition wf (v : mval) : Prop := wfb v = true.
 
 (* nesting counted in containers (what the encoder limits) and in values (what the decoder limits) *)
@@ -353,7 +346,7 @@ Fixpoint vdepth (v : mval) : nat :=
 Definition size_ok (n : Z) : bool := negb (row_MAXIMUM_RECORD_SIZE <? n)%Z.    (* not (record_size > MAXIMUM_RECORD_SIZE) *)
 
 Definition encode_row (ts : N) (row : list mval) : result bytes :=
-  if negb (forallb encodable row && (cdepth (MArr row) <=? enc_container_limit))
+  if negb (wfb (MArr row) && (cdepth (MArr row) <=? enc_container_limit))
   then Raise TypeError                                     (* packb: integer out of range / surrogates / recursion limit *)
   else
     let payload := pack (MArr row) in                      (* packb(tuple(self)) *)
@@ -484,7 +477,7 @@ Inductive outcome := OOk (l : list ocell) | ORaise (e : exn) | OSame.
 
 Definition cell_matches (c : cell) (o : ocell) : bool :=
   match c, o with
-  | CVal v, OVal w => mval_eqb v w || mval_eqb (norm v) w     (* norm only matters for repeated keys *)
+  | CVal v, OVal w => if mval_eqb v w then true else mval_eqb (norm v) w     (* norm only matters for repeated keys; lazy *)
   | CDate _, ODate => true
   | _, _ => false
   end.
@@ -559,8 +552,8 @@ Definition nest_arr (n : N) (v : mval) : mval := N.iter n (fun x => MArr [x]) v.
 Definition nest_map (n : N) (v : mval) : mval := N.iter n (fun x => MMap [([107], x)]) v.
 
 (* polynomial digest used instead of a literal when an observed record is large and incompressible *)
-Definition digest (l : bytes) : N :=
-  fold_left (fun h b => (h * 257 + b + 1) mod 2305843009213693951) l 0.
+Definition digest (l : bytes) : N :=        (* h := (257 h + b + 1) mod 2^61, shifts and masks only: cheap in the VM *)
+  fold_left (fun h b => N.land (N.shiftl h 8 + h + b + 1) 2305843009213693951) l 0.
 
 Inductive enc_obs := EBytes (r : bytes) | EHash (n : N) (h : N) | ERaise (e : exn).
 
